@@ -7,7 +7,8 @@ from . import alphabet as al
 def shape_patterns(tier):
     """(Ka, Ma, pat_a, Kb, Mb, pat_b)"""
     if tier == "quick":
-        return [(1, 1, 0, 1, 1, 2), (1, 1, 2, 1, 1, 1), (2, 2, 0, 1, 1, 1), (1, 2, 1, 2, 1, 1), (2, 1, 1, 2, 2, 0)]
+        return [(1, 1, 0, 1, 1, 2), (1, 1, 2, 1, 1, 1), (2, 2, 0, 1, 1, 1), (1, 2, 1, 2, 1, 1), (2, 1, 1, 2, 2, 0),
+                (1, 1, 2, 2, 1, 0)]  # the last one: tightest primitives on BOTH shells
     out = []
     for Ka, Kb in itertools.product([1, 2, 3, 4], repeat=2):
         for pa in range(len(al.exp_patterns(0, Ka))):
@@ -18,13 +19,13 @@ def shape_patterns(tier):
 
 
 def bounds(tier, lmax=5):
-    return {"l_pairs": (lmax + 1) ** 2, "type_pairs": 4, "geometries": 5 if tier == "quick" else len(al.GEOMS), "atom_index_patterns": 3,
+    return {"l_pairs": (lmax + 1) ** 2, "type_pairs": 4, "geometries": 7 if tier == "quick" else len(al.GEOMS), "coefficient_scale_classes": 3, "atom_index_patterns": 3,
             "shape_patterns": len(shape_patterns(tier)), "K": "1..2" if tier == "quick" else "1..4",
             "M": "1..2" if tier == "quick" else "1..3", "whole_bases": "1,3,4 shells, all type patterns"}
 
 
 def configs(tier, lmax=5, singles=True, bases=True, shapes=None, geoms=None):
-    geoms = geoms or (al.GEOMS[:5] if tier == "quick" else al.GEOMS)
+    geoms = geoms or (al.GEOMS[:5] + ["closeT", "nearfar"] if tier == "quick" else al.GEOMS)
     shapes = shapes or shape_patterns(tier)
     out = []
     for la in range(lmax + 1):
@@ -37,6 +38,14 @@ def configs(tier, lmax=5, singles=True, bases=True, shapes=None, geoms=None):
                         ic = [None, [0, 0], [1, 0]][(la + lb + len(out)) % 3]
                         out.append({"kind": "pair", "la": la, "lb": lb, "ta": ta, "tb": tb, "geom": g,
                                     "shape": list(sp), "ic": ic})
+    # coefficient scale classes ("any non-zero coefficients"): a whole shell / one segmented column scaled by
+    # 1e-5 ... 1e5 - the normalised functions, hence every integral, are unchanged
+    for la in range(lmax + 1):
+        for lb in range(lmax + 1):
+            for cs in (1, 2, 3):
+                ta, tb = al.type_patterns(2)[(la + 2 * lb + cs) % 4]
+                out.append({"kind": "pair", "la": la, "lb": lb, "ta": ta, "tb": tb, "geom": "generic",
+                            "shape": list(shapes[(la + lb + cs) % len(shapes)]), "ic": None, "cs": cs})
     if singles:
         for l in range(lmax + 1):
             for K in ([1, 2] if tier == "quick" else [1, 2, 3, 4]):
@@ -53,6 +62,19 @@ def configs(tier, lmax=5, singles=True, bases=True, shapes=None, geoms=None):
     return out
 
 
+def close_configs(lmax):
+    """nearly coincident centres with the tightest primitives on both shells, and the 3e-4 bohr pair far from the
+    origin - one configuration per (l_a, l_b, class), coordinate types cycling"""
+    out = []
+    for la in range(lmax + 1):
+        for lb in range(lmax + 1):
+            for gi, g in enumerate(("closeT", "nearfar")):
+                ta, tb = al.type_patterns(2)[(la + 3 * lb + gi) % 4]
+                out.append({"kind": "pair", "la": la, "lb": lb, "ta": ta, "tb": tb, "geom": g,
+                            "shape": [1, 1, 2, 2, 1, 0], "ic": None})
+    return out
+
+
 def build(cfg, originA=False):
     tier = "thorough"
     if cfg["kind"] == "pair":
@@ -64,8 +86,24 @@ def build(cfg, originA=False):
         a = al.shell(cfg["la"], A, Ka, Ma, cfg["ta"], pat=pa, rot=0, tier=tier, tabulated=ta_)
         b = al.shell(cfg["lb"], A, Kb, Mb, cfg["tb"], pat=pb, rot=1, tier=tier, tabulated=tb_)
         ea, eb = min(a.exps), min(b.exps)
-        B = al.add(A, al.displacement(cfg["geom"], mu=ea * eb / (ea + eb)))
+        xa, xb = max(a.exps), max(b.exps)
+        B = al.add(A, al.displacement(cfg["geom"], mu=ea * eb / (ea + eb), mu_max=xa * xb / (xa + xb)))
         b = b.with_(center=B)
+        if cfg["geom"] == "nearfar":
+            a, b = a.with_(center=al.add(A, al.FAR_OFFSET)), b.with_(center=al.add(B, al.FAR_OFFSET))
+        cs = cfg.get("cs")
+        if cs:
+            import numpy as np
+
+            ca, cb = np.array(a.coeffs, dtype=float), np.array(b.coeffs, dtype=float)
+            if cs == 1:
+                cb[:, 0] *= 1e-5
+            elif cs == 2:
+                ca *= 1e5
+                cb[:, -1] *= 3e-4
+            else:
+                ca *= 1e-6
+            a, b = a.with_(coeffs=ca), b.with_(coeffs=cb)
         if cfg.get("ic"):
             a, b = a.with_(icenter=cfg["ic"][0]), b.with_(icenter=cfg["ic"][1])
         return [a, b]
